@@ -54,17 +54,26 @@ def spec_walks(tier, seed):
     return path, len(walks)
 
 
+def nshards(tier):
+    return 64 if tier == "thorough" else None
+
+
 def run_parse(pid, tier, seed):
     vh = vlib.build_harness()
     r1, states_path, states = parse_r1(tier)
     walks, nwalks = spec_walks(tier, seed)
-    g = vlib.run_gen(vh, "parse", tier, seed, states=states_path, walks=walks)
+    g = vlib.run_gen(vh, "parse", tier, seed, states=states_path, walks=walks, shards=nshards(tier))
     res = {"r1": r1, "gens": [g], "trace": ("TraceParse.tla", "TraceParse.cfg")}
     if "hang" in g:
         res["hang"] = g["hang"]
         return res
-    bads, consumed, notes = vlib.validate("TraceParse.tla", "TraceParse.cfg", g["files"])
+    # the thorough tier of C11 also checks that the implementation-shaped FastSkip model agrees with the real
+    # SkipValueFast on every input, malformed ones included (differences are conformance notes, not violations)
+    conf = {"CONFORMANCE": "1"} if (pid == "C11" and tier == "thorough") or os.environ.get("VERIF_CONFORMANCE") else None
+    bads, consumed, notes = vlib.validate("TraceParse.tla", "TraceParse.cfg", g["files"], extra_env=conf)
     res.update(bads=bads, consumed=consumed, notes=notes, spec_walks=nwalks)
+    if conf:
+        res["cov_fastskip_model_conformance_checked"] = True
     return res
 
 
@@ -95,7 +104,7 @@ def run_handlers(pid, tier, seed):
         if os.path.exists(os.path.join(vlib.SPEC, cfg)):
             r1.append(vlib.model_check(mod, cfg, expect_violation=neg))
     walks, nwalks = spec_walks(tier, seed)
-    g = vlib.run_gen(vh, "handlers", tier, seed, states=states_path, walks=walks)
+    g = vlib.run_gen(vh, "handlers", tier, seed, states=states_path, walks=walks, shards=nshards(tier))
     res = {"r1": r1, "gens": [g]}
     if "hang" in g:
         res["hang"] = g["hang"]
@@ -142,7 +151,7 @@ def run_values(pid, tier, seed):
     for mod, cfg in VALUES_R1.get(pid, []):
         if os.path.exists(os.path.join(vlib.SPEC, cfg)):
             r1.append(vlib.model_check(mod, cfg))
-    g = vlib.run_gen(vh, "values", tier, seed, states=states_path, only=VALUES_ONLY.get(pid))
+    g = vlib.run_gen(vh, "values", tier, seed, states=states_path, only=VALUES_ONLY.get(pid), shards=nshards(tier))
     res = {"r1": r1, "gens": [g]}
     if "hang" in g:
         res["hang"] = g["hang"]
@@ -185,7 +194,7 @@ VALUES_R1 = {
 def run_floats(pid, tier, seed):
     vh = vlib.build_harness()
     r1 = [vlib.model_check("MC_Floats.tla", "MC_Floats.cfg")]
-    g = vlib.run_gen(vh, "floats", tier, seed)
+    g = vlib.run_gen(vh, "floats", tier, seed, shards=nshards(tier))
     res = {"r1": r1, "gens": [g]}
     if "hang" in g:
         res["hang"] = g["hang"]
@@ -200,7 +209,7 @@ def run_trees(pid, tier, seed):
     vh = vlib.build_harness()
     r1, states_path, states = parse_r1("quick")
     walks, nwalks = spec_walks(tier, seed)
-    g = vlib.run_gen(vh, "trees", tier, seed, states=states_path, walks=walks)
+    g = vlib.run_gen(vh, "trees", tier, seed, states=states_path, walks=walks, shards=nshards(tier))
     res = {"r1": r1, "gens": [g]}
     if "hang" in g:
         res["hang"] = g["hang"]
@@ -217,7 +226,7 @@ def run_compose(pid, tier, seed):
     r1.append(c)
     r1.append(vlib.model_check("MC_Compose.tla", "MC_Compose_thorough.cfg" if tier == "thorough" else "MC_Compose.cfg"))
     walks, nwalks = spec_walks(tier, seed)
-    g = vlib.run_gen(vh, "compose", tier, seed, states=states_path, walks=walks)
+    g = vlib.run_gen(vh, "compose", tier, seed, states=states_path, walks=walks, shards=nshards(tier))
     res = {"r1": r1, "gens": [g]}
     if "hang" in g:
         res["hang"] = g["hang"]
@@ -675,7 +684,10 @@ def run_check(pid, tier, seed):
     for clause, path in res.get("direct_violations", []):
         violations.append(path)
         print("VIOLATION property=%s replay=%s" % (pid, path))
-    mine = [b for b in res.get("bads", []) if b["prop"] == pid or b["clause"] == "panic" or b.get("conc")]
+    conf_notes = [b for b in res.get("bads", []) if b["prop"] == "NOTE"]
+    for b in conf_notes[:5]:
+        print("CONFORMANCE-NOTE property=%s %s %s" % (pid, b["clause"], json.dumps(case_of(b))[:300]))
+    mine = [b for b in res.get("bads", []) if b["prop"] != "NOTE" and (b["prop"] == pid or b["clause"] == "panic" or b.get("conc"))]
     # reproduce at most a bounded number of distinct failing cases
     for b in mine:
         case = case_of(b)
@@ -731,7 +743,8 @@ def run_check(pid, tier, seed):
         "samples": [_sample(s) for s in stats["samples"][:6]] or ["(none)"],
         "model_checks": r1,
         "events": stats["events"],
-        "bad_events_all_properties": len(res.get("bads", [])),
+        "bad_events_all_properties": len([b for b in res.get("bads", []) if b["prop"] != "NOTE"]),
+        "conformance_notes": len(conf_notes),
         "known_findings_matched": [k["sig"] for k in known_hits],
         "exhaustive": False,
     }
